@@ -4,7 +4,7 @@
    <!-- GEN:SEEDS -->  seeded change x check matrix (from seeded/*/meta.json and seeded/RESULTS.json)
 Nothing else in DESIGN.md is touched."""
 import json, os, re, sys, glob
-ROOT = '/verif'
+ROOT = os.path.dirname(os.path.dirname(os.path.abspath(__file__)))
 sys.path.insert(0, ROOT)
 from units import REGISTRY, NOT_APPLICABLE
 
